@@ -1,6 +1,6 @@
 //! Test harness driving the real `lockable` containers with the line protocol of /verif/PROTOCOL.md.
 //!
-//! harness replay --ops <file> --out <file> [--rewrite <file>]
+//! harness replay [--ops <file>] [--out <file>] [--rewrite <file>]      (default: stdin / stdout)
 //! harness gen --seed <u64> --cases <n> --maxlen <n> --kind <hashmap|lru|pool|all> --profile <name>
 //!             --ops <file> --out <file> --stats <file.json> [--avoid sdrop-order]
 
@@ -17,7 +17,7 @@ use std::process::ExitCode;
 
 fn usage() -> ExitCode {
     eprintln!(
-        "usage:\n  harness replay --ops <file> --out <file> [--rewrite <file>]\n  harness gen --seed <u64> --cases <n> --maxlen <n> --kind <hashmap|lru|pool|all> \
+        "usage:\n  harness replay [--ops <file>] [--out <file>] [--rewrite <file>]    (default: stdin / stdout)\n  harness gen --seed <u64> --cases <n> --maxlen <n> --kind <hashmap|lru|pool|all> \
          --profile <mixed|cancel|limit|expire|stream|pool> --ops <file> --out <file> --stats <file.json> [--avoid sdrop-order]"
     );
     ExitCode::from(2)
@@ -36,10 +36,20 @@ fn parse_flags(args: &[String]) -> Option<HashMap<String, String>> {
 }
 
 fn replay(flags: &HashMap<String, String>) -> Result<(), String> {
-    let ops_path = flags.get("ops").ok_or("missing --ops")?;
-    let out_path = flags.get("out").ok_or("missing --out")?;
-    let ops = BufReader::new(File::open(ops_path).map_err(|e| format!("{ops_path}: {e}"))?);
-    let mut out = BufWriter::new(File::create(out_path).map_err(|e| format!("{out_path}: {e}"))?);
+    // without --ops / --out (or with `-`): stdin / stdout, like the Lean driver
+    let dash = "-".to_string();
+    let ops_path = flags.get("ops").unwrap_or(&dash);
+    let out_path = flags.get("out").unwrap_or(&dash);
+    let ops: Box<dyn BufRead> = if ops_path == "-" {
+        Box::new(BufReader::new(std::io::stdin()))
+    } else {
+        Box::new(BufReader::new(File::open(ops_path).map_err(|e| format!("{ops_path}: {e}"))?))
+    };
+    let mut out: Box<dyn Write> = if out_path == "-" {
+        Box::new(std::io::stdout())
+    } else {
+        Box::new(BufWriter::new(File::create(out_path).map_err(|e| format!("{out_path}: {e}"))?))
+    };
     // optional: the request lines as executed, with the key list of every `reorder` replaced by the
     // real iteration order at that point (a recorded hash map order cannot be reproduced)
     let mut rewrite = match flags.get("rewrite") {
